@@ -2,37 +2,26 @@
 import importlib.util, os
 _s = importlib.util.spec_from_file_location("rc", os.path.join(VERIF, "props", "_runtime_common.py")); rc = importlib.util.module_from_spec(_s); _s.loader.exec_module(rc)
 
-def api(prog, acqs, nmax, ring, timeout=1200, solver="cadical", name=None, excludes=()):
-    return H(name or "api_prog%d_A%d_N%d_K%d" % (prog, acqs, nmax, ring), "harness/runtime/api.c", repo=rc.RUNTIME_SRCS, env=rc.ENV_COARSE,
-             defines=["PROG=%d" % prog, "ACQS=%d" % acqs, "NMAX=%d" % nmax, "RING_FRAMES=%d" % ring, "VERIF_TYPED_RING=104", "VERIF_RING_SLOTS=%d" % ring] + list(excludes), cflags=rc.cflags(VERIF),
-             unwind=max(7, 2 * nmax + 3), unwindset={"verif_memset_b.0": ring * 104 + 16}, solver=solver, timeout=timeout, mem_gb=24,
-             what="whole real runtime over mock devices, coarse worker schedules, program template %d, %d acquisition(s) of 1..%d frames, ring = %d frames" % (prog, acqs, nmax, ring),
-             bounds=dict(acquisitions=acqs, frames_per_acquisition="1..%d" % nmax, ring_frames=ring, client="<=2 map/unmap rounds per acquisition, partial consumption, may hold across stop"))
-
-def inst(acqs, n, early, ab, cl, ring=3, excl=True, timeout=900, prog=1):
-    d = ["FIX_N=%d" % n, "FIX_EARLY=%d" % early, "CL_MODE=%d" % cl]
-    if ab is not None:
-        d.append("FIX_ABORT=%d" % ab)
-    if excl:
-        d.append("EXCL_C06_FIRST_MAP=1")
-    h = api(prog, acqs, n, ring, timeout, name="api_A%d_N%d_e%d_%s_cl%d%s" % (acqs, n, early, {None: "sa", 0: "stop", 1: "abort"}[ab], cl, "" if excl else "_firstmap"), excludes=d)
-    h.what += "; source %s the client, %s, client mode %d%s" % ("before" if early else "after", {None: "stop or abort (symbolic)", 0: "stop", 1: "abort"}[ab], cl,
-                                                                "" if excl else " (client's first map ever happens after data exists: known-finding witness)")
-    return h
+def inst(*a, **k):
+    return rc.inst(H, VERIF, *a, **k)
 
 def harnesses(tier, findings):
     excl = "C06-first-map-sees-earlier-data" in findings
     hs = []
     if tier == "probe3":
         return [inst(2, 2, 1, None, 1), inst(2, 2, 1, None, 2), inst(2, 2, 1, None, 3), inst(2, 2, 0, None, 1), inst(1, 1, 1, 0, 0, excl=False)]
-    cls = (1, 2, 3)
+    cls = (0, 1, 2, 3)
     for cl in cls:
-        hs.append(inst(2, 2, 1, None, cl, excl=excl))
-    hs.append(inst(2, 2, 0, None, 1, excl=excl))
+        hs.append(inst(2, 2, 1, 0, cl, excl=excl))
+    hs.append(inst(2, 2, 1, 1, 1, excl=excl))
+    hs.append(inst(2, 2, 0, 0, 1, excl=excl))
+    hs.append(inst(2, 2, 0, 1, 0, excl=excl))
     if tier == "thorough":
         for cl in cls:
-            hs.append(inst(3, 2, 1, None, cl, ring=3, excl=excl, timeout=3000))
-            hs.append(inst(2, 3, 1, None, cl, ring=4, excl=excl, timeout=3000))
+            hs.append(inst(2, 2, 1, 1, cl, excl=excl, timeout=3000)) if cl != 1 else None
+            hs.append(inst(3, 2, 1, 0, cl, ring=3, excl=excl, timeout=3000))
+            hs.append(inst(2, 3, 1, 0, cl, ring=4, excl=excl, timeout=3000))
+        hs.append(inst(2, 2, 0, 1, 1, excl=excl, timeout=3000))
     if excl:
         w = inst(1, 1, 1, 0, 0, excl=False)
         w.expect = r"frames of a finished acquisition delivered after stop/abort returned"
